@@ -939,6 +939,11 @@ class _guarded:
         return self
 
     def __exit__(self, et, ev, tb):
+        if et is not None and issubclass(et, ValueError) and 'ill-defined empirical covariance' in str(ev):
+            # sklearn's explicit refusal of a numerically singular class covariance (a class collapsed during EM on the
+            # random data of this case): an allowed answer, there is nothing to compare with the model
+            self.ctx.count(f'corr-case-rejected-by-code:{self.op}:singular-covariance')
+            return True
         if et is not None and issubclass(et, Exception):
             import traceback
             self.ctx.corr(self.op, False, 'the real code raised while preparing the case: ' +
